@@ -2078,9 +2078,16 @@ case_string:
                           break;
                         }
                       default:
-                        /* Add backslash as well */
+                        /* Add backslash as well: two characters for one unit of
+                         * the space budget l, so account for the second one */
                         *to++ = '\\';
-                        *to++ = *(outptr - 1);
+                        if (l > 0)
+                          {
+                            *to++ = *(outptr - 1);
+                            l--;
+                          }
+                        else
+                          outptr--;	/* no room left here: copied by the next stage */
                         yywarn("Unknown \\ escape.");
                       }
                     break;
@@ -2203,8 +2210,15 @@ case_string:
                           break;
                         }
                       default:
+                        /* two characters for one unit of the space budget l */
                         *yyp++ = '\\';
-                        *yyp++ = *(outptr - 1);
+                        if (l > 0)
+                          {
+                            *yyp++ = *(outptr - 1);
+                            l--;
+                          }
+                        else
+                          outptr--;	/* no room: ends in "String too long" below */
                       }
                     break;
 
